@@ -66,13 +66,17 @@ def f(a, b=5):
 
 
 def pool_ir(i, p=None, d=None):
-    """IR pool: 0..2 from the shape catalogue, 3 = parsed from a function with a body (carries _internal.body)"""
+    """IR pool: 0..2, 4, 5 from the shape catalogue (4: an untyped parameter, 5: a parameter without prose), 3 = parsed from a function with a body"""
     if i == 0:
         return mk_ir("p2_d_then_plain", p=p or "the b", d=1 if d is None else d)
     if i == 1:
         return mk_ir("p1_ret", p=p or "the a")
     if i == 2:
         return mk_ir("p3_mixed", p=p or "the a", d=1 if d is None else d)
+    if i == 4:
+        return mk_ir("p1_untyped_d", p=p or "the a", d=1 if d is None else d)
+    if i == 5:
+        return mk_ir("p2_noprose", p=p or "the b", d=1 if d is None else d)
     ir = parse.function(ast.parse(BODY_SRC).body[0])
     return ir
 
@@ -151,14 +155,14 @@ def parse_twice(k):
 def obligations(tier, seed):
     obs = []
     for w in range(4):
-        for i in range(4):
+        for i in range(6):
             params, pre = [("p", "str"), ("d", "int")], ["1 <= len(p) <= 2", "all(c in %r for c in p)" % PROSE_A,
                                                          "p[0] != ' ' and p[-1] != ' '", "-2 <= d <= 2"]
             obs.append(Ob(
                 name="frame_%s_ir%d" % (EMITTERS[w], i), params=params, pre=pre, body="H.frame(%d, %d, p, d)" % (w, i),
                 witness=("a", 1), bounds="emitter %s on pool IR %d; prose hole len<=2 over %r and int default in [-2,2] symbolic"
                 % (EMITTERS[w], i, PROSE_A), timeout=150 if tier == "quick" else 600, path_timeout=100, funcs=FUNCS))
-    for i in range(4):
+    for i in range(6):
         obs.append(Ob(
             name="sequence_ir%d" % i, params=[("n", "int"), ("s1", "int"), ("s2", "int"), ("s3", "int"), ("s4", "int")],
             pre=["1 <= n <= %d" % (3 if tier == "quick" else 4), "all(0 <= x < 4 for x in (s1, s2, s3, s4))",
